@@ -86,6 +86,11 @@ CHECKS = {
         technique="TLA+ information-flow policy (Flows.tla) evaluated by TLC over the emissions recorded from real runs of the other families' scenarios with distinct sentinel credentials and the logger at debug level",
         text="The property quantifies over the run paths exercised; this check re-runs a complete Sync() (checkpoint load, full sync, incremental sync, drop + reconnect), full sync / restore / entry restore / incremental filter scenarios, an incremental cut + restart, checkpoint load and the slot supervisor with sentinel values in all four credential fields, reduces every log line (all levels) and the configuration echo / REST metric / syncer status documents to (sink, sentinel fields present) and lets TLC evaluate the policy; all other checks additionally scan their own log output.",
         note="Coverage = exercised paths (not a proof about all log statements); TLA+ only evaluates the policy; rump's driver scans its own log."),
+    "C01": dict(
+        level="model_checking", design="DESIGN.md 4/C01",
+        technique="TLA+ model of the loader's opcode loop against the record contract (RdbFile.tla / RdbContract.tla) model-checked by TLC for all operation sequences up to length 4-5; operation sequences concretised by an independent RDB writer and parsed by the real Loader, record attributes validated by TLC (RdbTrace.tla), key / type / DUMP payload bytes compared with what the writer put into the file",
+        text="TLC checks the opcode loop for every operation sequence (attributes bound to the next key, database tracking, script records, skipped metadata, chunk records); the real Loader is bound by trace validation over generated files covering format versions 3-9, every value type and compact encoding, all length and string forms for values and key names, sizes across the 6/14/32-bit boundaries, streams with consumer groups, module-aux blocks (64-bit ids, float/double), and hashes above the 16 MiB chunk limit, with byte-exact comparison of every payload and the footer check.",
+        note="Payload byte fidelity rests on the harness's independent writer (rdbref) which remembers each value's bytes; module values (types 6/7) not generated; pre-version-5 files have no checksum."),
 }
 
 NOT_YET = "check not built yet in this session (work in progress; see DESIGN.md section 7 for the order)"
